@@ -1,13 +1,19 @@
 #!/bin/bash
-# usage: mutant.sh <patch-file> <check-id>...   applies the patch to /repo, runs the quick checks, reverts.
-patch=$1; shift
-cd /repo || exit 2
-if ! git diff --quiet; then echo "/repo has uncommitted changes"; exit 2; fi
-git apply "$patch" || { echo "patch does not apply"; exit 2; }
+# usage: mutant.sh <patch-file> <check-id>...
+# Development aid. Applies the patch to a scratch worktree of /repo's HEAD (never to /repo itself, so
+# background sweeps against /repo are not disturbed), builds the same harness sources against that
+# worktree (VERIF_REPO, shadow crate under /tmp/mutant-out) and runs the quick checks there.
+# TIER=thorough runs the thorough tier instead.
+patch=$(readlink -f "$1"); shift
+wt=/tmp/mutant-wt
+[ -d $wt ] || git -C /repo worktree add --detach $wt HEAD >/dev/null 2>&1 || exit 2
+git -C $wt checkout -q --detach $(git -C /repo rev-parse HEAD) && git -C $wt checkout -q -- . && git -C $wt clean -fdq -e target
+git -C $wt apply "$patch" || { echo "patch does not apply"; exit 2; }
 for id in "$@"; do
-  out=$(cd /verif && VERIF_ROOT=/tmp/mutant-out ./check $id --tier quick 2>&1); rc=$?
-  echo "== $(basename $patch) / $id: exit $rc"
-  echo "$out" | grep -A1 "^VIOLATION" | head -6 | cut -c1-400
+  out=$(cd /verif && VERIF_REPO=$wt VERIF_ROOT=/tmp/mutant-out ./check $id --tier ${TIER:-quick} 2>&1); rc=$?
+  echo "== $(basename $(dirname $patch))/$(basename $patch) / $id: exit $rc"
+  echo "$out" | grep -A1 "^VIOLATION" | head -${LINES_SHOWN:-6} | cut -c1-500
   echo "$out" | grep "tier=" | tail -1
+  [ $rc = 2 ] && echo "$out" | tail -15
 done
-git -C /repo checkout -- .
+git -C $wt checkout -q -- .
